@@ -1,6 +1,7 @@
 import J5V.Go.Outcome
 import J5V.Codec.Value
 import J5V.Json.Token
+import J5V.Json.Tree
 /-!
 # Scalars: `scalarGoFromReflect` / `encodeScalarField` and `scalarReflectFromGo`
 
@@ -231,9 +232,30 @@ structure Oracle where
   parseTime : Bytes → Option (Int × Int)
   /-- `decimal.NewFromString(text)` then `.String()` -/
   parseDec : Bytes → Option Bytes
+  /-- SPECIFICATION SIDE ONLY (the driver never sets it, the decoder never reads it): recognises the
+  `j5_json` chunks a theorem speaks about and gives their parsed form. The encoder model keeps a
+  recognised chunk in its tree in parsed form instead of as one `raw` node *only if it renders to
+  exactly the same bytes* (`chunkNode`), so the bytes the model writes do not depend on this field
+  (`chunkNode_render`). -/
+  chunk : Bytes → Option J5V.Json.PTree := fun _ => none
 
 instance : Inhabited Oracle :=
-  ⟨⟨fun _ => [], fun _ => [], fun _ => none, fun _ _ => [], fun _ => none, fun _ => none⟩⟩
+  ⟨⟨fun _ => [], fun _ => [], fun _ => none, fun _ _ => [], fun _ => none, fun _ => none, fun _ => none⟩⟩
+
+/-- the node the encoder model puts into its tree for the `j5_json` bytes of an `Any`: one `raw`
+chunk, or — same bytes — the parsed form when the specification-side oracle recognises it. -/
+def chunkNode (O : Oracle) (bs : Bytes) : J5V.Json.PTree :=
+  match O.chunk bs with
+  | some V => if V.render = bs then V else .raw bs
+  | none => .raw bs
+
+theorem chunkNode_render (O : Oracle) (bs : Bytes) : (chunkNode O bs).render = bs := by
+  unfold chunkNode
+  split
+  · split
+    · assumption
+    · rfl
+  · rfl
 
 /-! ## encode -/
 
